@@ -14,12 +14,12 @@ NOTE_A = ("trusted base: cosmos-sdk store/bank, the go runtime; transactions run
 checks = {
     "C01": dict(engine="chainmc", cat="model_checking", tech="explicit-state BFS over real-handler histories; conservation oracle per state + per-address flow equation per transition",
                 text="All histories over the S-poor (an account that cannot pay for everything it asks: failing bank transfers) / S-escrow / S-leased / S-life alphabets (same-block pairs, overdraft gaps) up to the depth bound are executed on the real app; in every reachable state module balance == sum of recorded balances, and on every transition each address's bank delta equals what its escrow records account for.", ref="6 C01"),
-    "C03": dict(engine="chainmc", cat="model_checking", tech="explicit-state BFS over real-handler histories; escrow consistency invariants + close-takes-effect + final-is-final per transition",
-                text="Every reachable state satisfies payment-open=>account-open, closed=>zero balance, real ExportGenesis passes real ValidateGenesis, nothing open=>module empty; every successful close leaves the named record non-open, including zero-block and zero-balance closes.", ref="6 C03"),
+    "C03": dict(engine="chainmc", cat="model_checking", tech="explicit-state BFS over real-handler histories; escrow consistency invariants + close-takes-effect + final-is-final + no-payout-beyond-records per transition",
+                text="Every reachable state satisfies payment-open=>account-open, closed=>zero balance, real ExportGenesis passes real ValidateGenesis, nothing open=>module empty; no address receives more in a transaction than the change of the records it owns accounts for (nothing is paid for a closed record); every successful close leaves the named record non-open, including zero-block and zero-balance closes.", ref="6 C03"),
     "C04": dict(engine="chainmc", cat="model_checking", tech="explicit-state BFS over real-handler histories; cross-record lifecycle invariants on every reachable state",
                 text="Every reachable state (two tenants, colliding dseq 1/12, two groups, two providers, overdraft reachable) satisfies the order/bid/lease/group/deployment agreement stated in C04, decoded independently from the raw stores.", ref="6 C04"),
     "C05": dict(engine="chainmc", cat="model_checking", tech="explicit-state BFS over real-handler histories; market<->escrow join invariants per state, refund equation per transition",
-                text="Every reachable state satisfies lease active<=>payment open, bid live<=>bid account open, deployment active<=>account open; every closing transition refunds exactly the unspent balance to the owner.", ref="6 C05"),
+                text="Every reachable state satisfies lease active<=>payment open, bid live<=>bid account open, deployment active<=>account open, bid deposit held=>deployment active; every closing transition refunds exactly the unspent balance to the owner.", ref="6 C05"),
     "C02": dict(engine="chainmc", cat="model_checking", tech="explicit-state BFS + exhaustive parameter grid (deposit x rates x stagger x gap x trigger) on the real app; independent integer settlement ledger per transition, closed-form accrual per state",
                 text="Every settlement executed anywhere in the explored histories is compared with an independent ledger computed from the pre-state only (funded: rate x blocks for every payee; overdraft: everything distributed, each share within [rate*n, rate*(n+1)]); every open payment's accrual equals rate x (settled - lease creation height); transferred == credited; grid enumerates all deposits 1..10(14), 1-3 payments with rates 1..3, staggered creation, gaps 0..6(9), 8 settle-triggering tails.", ref="6 C02"),
     "C06": dict(engine="chainmc", cat="model_checking", tech="explicit-state BFS over colliding-id histories with whole-store diff confinement per transition + signer table + real signed DeliverTx matrix (message type x signer)",
@@ -32,7 +32,7 @@ checks = {
                 text="Every document of the grammar (services x images/commands/args/env x exposes x profiles x placements x pricing x counts, plus a quantity-string grid) is read by the real sdl package under every key order; groups, manifest and version are identical across runs and orders, every declared field appears unchanged, and the manifest validates against its own groups.", ref="6 C18",
                 note="trusted base: gopkg.in/yaml.v3; the grammar bounds (<=2 services, 2 profiles, 2 placements) are stated in the evidence"),
     "C10": dict(engine="inputmc", cat="exploration", tech="small-scope exhaustive enumeration of (deployment groups, manifest) pairs, version triples and manifest field mutations against a set-theoretic oracle, through the real validation functions and manager.validateRequest (overlay harness)",
-                text="accept <=> oracle in both directions for every pair of the grammar (splits, merges, reorderings, near-miss units, endpoint kinds); version check over all (on-chain version, update events, manifest) triples; every single-field mutation changes the hash and every JSON key order leaves it unchanged.", ref="6 C10",
+                text="accept <=> oracle in both directions for every pair of the grammar (splits, merges, reorderings, near-miss units, endpoint kinds); version check over all (on-chain version, update events incl. versions that return A->B->A->B, manifest) combinations; every single-field mutation changes the hash and every JSON key order leaves it unchanged.", ref="6 C10",
                 note="trusted base: encoding/json, sha256; the update-event handling of manager.run is transcribed in the in-package harness and guarded by a source-text check (exit 2 on drift)"),
     "C08": dict(engine="chainmc", cat="model_checking", tech="exhaustive small-scope comparison of GroupSpec.MatchRequirements with a set-theoretic oracle + explicit-state BFS over histories in which attestations and provider records change between bids",
                 text="2.6 million requirement/own-attribute/auditor-list/attestation combinations (attribute values incl. the empty string; also through Order.MatchAttributes) agree with the statement's oracle; on every accepted CreateBid of S-attr / S-attr-leased the pre-state satisfies every admission condition; every accepted UpdateProvider leaves attributes covering all of the provider's active leases.", ref="6 C08"),
